@@ -311,6 +311,12 @@ func (c *Ctx) c10Scripts() error {
 			case op < 34:
 				fmt.Fprintf(&sb, "m[%s] += 3\nm[%s]++\n", kk.lit[k], kk.lit[k])
 				native[k] += 4
+			case op < 36: // the element type is declared: a constant spelled like a float is stored as an int
+				v := r.Intn(100)
+				fmt.Fprintf(&sb, "m[%s] = %d.0\nprintln(\"half\", m[%s]/2)\n", kk.lit[k], v, kk.lit[k])
+				native[k] = v
+				want = append(want, fmt.Sprintf("half %d", v/2))
+				c.Rep.Count("script-float-spelled-element")
 			case op < 40:
 				fmt.Fprintf(&sb, "m[pk(%d)] += 5\nm[pk(%d)]--\nm[pk(%d)] = m[pk(%d)] * 2\n", k, k, k, k)
 				native[k] = (native[k] + 4) * 2
